@@ -2,7 +2,7 @@
 from .. import runner, spec, gen
 from ..harnesses import HItem
 from ..monitors import OrderMonitor
-from .common import mixed_part, live_part
+from .common import mixed_part, live_part, live3_part
 
 RULE = ('H-ITEM: the addressed story S1 holds every sequence of <=N distinct item IDs over a pool (prefix pair a/ab) '
         'in three interleaving patterns (items only; a <p> before every item and after the last; a foreign element '
@@ -46,9 +46,10 @@ def run(tier):
                   'monitors': mon, 'opts': {'max_depth': 0}})
     parts.append(mixed_part(tier, mon))
     parts.append(live_part(tier, mon, spec.STORY_KINDS if 'c02' == 'c01' else spec.ITEM_KINDS))
+    parts.append(live3_part(tier, mon, spec.STORY_KINDS if 'c02' == 'c01' else spec.ITEM_KINDS))
     return runner.graph_check(
         'C02', tier, parts, rule=RULE + ' Plus H-MIXED: the same messages in every state reached by one earlier message of ANY of the 24 classes '
-        '(roReplace, roMetadataReplace, roStorySend, ...), as re-read text states and as two-message histories on one live object.', vacuity=vacuity,
+        '(roReplace, roMetadataReplace, roStorySend, ...), as re-read text states and as two- and three-message histories on one live object.', vacuity=vacuity,
         assumptions=['item IDs are only compared for equality (data independence)',
                      'item IDs are unique and non-blank inside the addressed story (they repeat across stories)',
                      'the position of items relative to paragraphs/foreign elements is not part of the property: only the item-ID sequence is compared',
